@@ -233,3 +233,44 @@ PROPS.update({
                                          "token columns never point into the middle of a surrogate pair; token positions are unique within a map"],
     },
 })
+
+PROPS.update({
+    "C05": {
+        "level": "exploration",
+        "rule": "three layers of untrusted inputs, all with overflow checks on: L1 random bytes; L2 byte-level mutations (flip, insert, delete, splice, truncate, number -> extreme, continuation-digit runs) of every fixture under /repo/tests/fixtures and of generated documents; L3 structure-aware hostile documents (extreme numbers incl. 62-bit VLQ values and negative running sums, wrong types, missing / repeated keys, mismatched array lengths, sections with offsets up to 2^32-1 nested up to 3 (random) and 1..200 (explicit chain), hostile rangeMappings / ignoreList / debug ids / Hermes payloads); every input goes through 17 entry-point calls and, when a map comes back, ~40-100 follow-up actions; non-trivial = input that decodes or is rejected by the crate's own logic (not by the JSON parser); distinct by hash of the bytes",
+        "hang_is_violation": True,
+        "steps": [MAIN, asan(scale=5), miri(mode="miri", tiers=("thorough",), nshards=16)],
+        "required_buckets": {"all": ["decoded-ok:regular", "decoded-ok:hermes", "decoded-ok:index", "decoded-ok-in:L2", "decoded-ok-in:L3",
+                                     "rejected-by-the-crate's-own-logic", "rejected-as-json", "L2:fixture", "L3:extreme-numbers-in-mappings",
+                                     "L3:wrong-type-for-a-key", "L3:missing-key", "L3:repeated-key", "L3:mismatched-array-lengths",
+                                     "L3:sections-with-extreme-offsets", "L3:deeply-nested-sections", "L3:malformed-hermes-payload",
+                                     "L3:hostile-rangeMappings"]},
+        "assumptions": COMMON_ASSUME + ["'hanging' = one input using more than 60 s of CPU (inputs are < 100 KB, normal cost < 5 ms)",
+                                         "'out of proportion' = peak heap growth above 256 bytes per input byte + 16 MiB, or any single request above 1 GiB",
+                                         "serialisation is exercised only while the greatest generated line stays below 100000 (as the property says)"],
+    },
+    "C18": {
+        "level": "exploration",
+        "rule": "generated files assembled from code lines, both comment forms, seven look-alike forms (indented, mid-line, missing '=', missing space, block comment, wrong case, sourceURL), empty and padded URLs, LF / CRLF / CR endings, with or without final newline, read from a slice and from a chunked reader; maps of every kind as in C01 for the detection predicate, regular maps for the data-URL round trip and the embedded-comment discovery; non-trivial = text with >= 1 candidate line (or any map); distinct by text / model hash",
+        "steps": [MAIN, asan(scale=10), miri(mode="miri", tiers=("thorough",), nshards=16)],
+        "required_buckets": {"all": ["found:standard", "found:legacy", "found:nothing", "found:empty-url", "first-of-several-candidates",
+                                     "lookalike:indented", "lookalike:mid-line", "lookalike:missing-equals", "lookalike:missing-space",
+                                     "lookalike:block-comment", "detected:regular", "detected:index", "detected:hermes",
+                                     "data-url-roundtrip+embedded-discovery"]},
+        "assumptions": COMMON_ASSUME + ["lines are '\\n'-separated with one trailing '\\r' removed; a lone '\\r' does not end a line"],
+    },
+    "C20": {
+        "level": "fault_enumeration",
+        "rule": "indexed RAM bundles written from a model (0..12 table slots, empty slots anywhere, startup code of 1..300 bytes, modules of length 0/1/2..60 incl. non-UTF-8 bytes, shuffled physical order, gaps) and, for each, every truncation length, every 32-bit header/table field set to each of {0, 1, len-1, len, len+1, 2^31, 2^32-2, 2^32-1}, every magic byte altered, zero length with non-zero offset; plus random byte strings with and without the magic; non-trivial = bundle with >= 1 present module or any corruption; distinct by hash of the bytes",
+        "steps": [MAIN, miri(mode="miri", nshards=16), asan(scale=20), valgrind(mode="valgrind")],
+        "required_buckets": {"all": ["empty-slot-first", "empty-slot-last", "module-of-length-1", "non-utf8-module", "modules-in-shuffled-physical-order",
+                                     "module-at-the-very-end-of-the-buffer", "corruption:truncated-inside-header", "corruption:truncated-inside-table",
+                                     "corruption:truncated-inside-startup", "corruption:truncated-inside-module", "corruption:magic-byte-altered",
+                                     "corruption:module-count=near-2^32", "corruption:entry-offset=near-2^32", "corruption:entry-length=near-2^32",
+                                     "corruption:entry-offset=around-buffer-length", "corruption:zero-length-with-nonzero-offset",
+                                     "refused:id-past-table", "refused:module-entry-out-of-range", "refused:startup-code-out-of-range",
+                                     "refused:not-a-bundle"]},
+        "assumptions": COMMON_ASSUME + ["a zero-length read positioned exactly at the end of the buffer may yield an empty slice or an error",
+                                         "only indexed (single-file) bundles; the file-system 'unbundle' variant is outside the property"],
+    },
+})
